@@ -117,7 +117,6 @@ def leanchecker_all() -> Dict[str, Any]:
     session through the layer cache (the key covers every Lean source)."""
     def compute() -> Dict[str, Any]:
         t0 = time.time()
-        ok_b, log_b = lake_build([])
         mods = []
         for lib in ("Hive", "Proofs", "Properties"):
             for root, _dirs, files in os.walk(os.path.join(LEAN_DIR, lib)):
@@ -125,12 +124,23 @@ def leanchecker_all() -> Dict[str, Any]:
                     if f.endswith(".lean"):
                         rel = os.path.relpath(os.path.join(root, f), LEAN_DIR)
                         mods.append(rel[:-5].replace(os.sep, "."))
-        mods = sorted(mods)
+        # the regenerated iteration-site table and the theorems about it belong to C01 alone (its check
+        # regenerates the table from the current source and builds them itself): a change of the code that
+        # only moves an iteration site must not break the re-check of the other properties
+        mods = sorted(m for m in mods if m not in ("Hive.Gen.Sites", "Properties.C01Sites"))
+        ok_b, log_b = lake_build(mods)
         if not ok_b:
-            return {"ok": False, "log": "lake build (all targets) failed: " + log_b[-800:], "modules": len(mods), "wall_s": round(time.time() - t0, 1)}
+            return {"ok": False, "log": "lake build (all modules) failed: " + log_b[-800:], "modules": len(mods), "wall_s": round(time.time() - t0, 1)}
         p = subprocess.run(["lake", "env", "leanchecker", *mods], cwd=LEAN_DIR, stdout=subprocess.PIPE, stderr=subprocess.STDOUT, timeout=3000)
         return {"ok": p.returncode == 0, "log": p.stdout.decode(errors="replace")[-800:], "modules": len(mods), "wall_s": round(time.time() - t0, 1)}
     return cached("leanchecker", {}, compute)
+
+
+def leanchecker_mods(mods: List[str]) -> Dict[str, Any]:
+    """replay the compiled files of the given modules with leanchecker (not cached)"""
+    t0 = time.time()
+    p = subprocess.run(["lake", "env", "leanchecker", *mods], cwd=LEAN_DIR, stdout=subprocess.PIPE, stderr=subprocess.STDOUT, timeout=3000)
+    return {"ok": p.returncode == 0, "log": p.stdout.decode(errors="replace")[-800:], "modules": len(mods), "wall_s": round(time.time() - t0, 1)}
 
 
 class ProofStatus:
